@@ -20,7 +20,7 @@ def leaves(g, path=()):
     for n in g["nodes"]:
         if n["kind"] == "graph":
             yield from leaves(n["graph"], path + (n["name"],))
-        elif n["kind"] == "func":
+        elif n["kind"] in ("func", "ifelse", "route"):      # a gate's routing function is a node function too
             yield path, n
 
 
